@@ -82,6 +82,7 @@ fn main() {
             "C15" => monitors::c15::replay(&case, &mut rep),
             "C16" => monitors::c16::replay(&args, &case, &mut rep),
             "C17" => monitors::c17::replay(&args, &case, &mut rep),
+            "C18" => monitors::c18::replay(&args, &case, &mut rep),
             "C19" => monitors::c19::replay(&case, &mut rep),
             "C20" => monitors::c20::replay(&case, &mut rep),
             other => panic!("no replay for {other}"),
@@ -103,6 +104,7 @@ fn main() {
             "C15" => monitors::c15::run(&args, &mut rep),
             "C16" => monitors::c16::run(&args, &mut rep),
             "C17" => monitors::c17::run(&args, &mut rep),
+            "C18" => monitors::c18::run(&args, &mut rep),
             "C19" => monitors::c19::run(&args, &mut rep),
             "C20" => monitors::c20::run(&args, &mut rep),
             other => {
